@@ -516,3 +516,261 @@ pub fn run_last_receiver(seed: u64, runs: u64, budget_ms: u64, small: bool, shar
     shard.stat("trials_in_which_a_reclamation_cycle_started_or_completed_inside_the_window", in_window);
     shard.stat("trials_refused_with_Disconnected", refused);
 }
+
+// ---------------------------------------------------------------------------------------------
+// mq-tight, mode "handle-count": two long-lived threads clone and drop handles of the SAME stream
+// (or sender handles of the same queue) at the same time, free-running, with seeded skew. The
+// queue keeps a count of handles per stream and of senders; the counts are only visible through
+// behaviour, and that is what is checked at quiescence afterwards:
+//   receivers - while the stream still has handles it limits the senders (exactly N accepted);
+//               of its last two handles exactly the second unsubscribe() says "last"; afterwards the
+//               stream no longer limits anybody (N further sends accepted / Disconnected when it was
+//               the only stream);
+//   senders   - values sent concurrently by the two surviving handles all arrive exactly once, and
+//               once they are dropped the receiver sees Disconnected, not Empty forever.
+
+fn run_pair(workers: &[Arc<Worker>], go: &Arc<AtomicU64>, a: Job, b: Job) {
+    *workers[0].job.lock().unwrap() = Some(a);
+    *workers[1].job.lock().unwrap() = Some(b);
+    workers[0].state.store(1, SeqCst);
+    workers[1].state.store(1, SeqCst);
+    let mut n = 0u64;
+    while workers[0].state.load(SeqCst) != 2 || workers[1].state.load(SeqCst) != 2 {
+        n += 1;
+        if cfg!(miri) || n > 100_000 {
+            std::thread::yield_now();
+        }
+    }
+    go.fetch_add(1, SeqCst);
+    n = 0;
+    while workers[0].state.load(SeqCst) != 3 || workers[1].state.load(SeqCst) != 3 {
+        n += 1;
+        if cfg!(miri) || n > 100_000 {
+            std::thread::yield_now();
+        }
+    }
+    workers[0].state.store(0, SeqCst);
+    workers[1].state.store(0, SeqCst);
+}
+
+pub fn run_handle_count(seed: u64, runs: u64, budget_ms: u64, small: bool, shard: &mut Shard) {
+    use std::sync::mpsc::{TryRecvError, TrySendError};
+    use std::sync::Mutex;
+    let t0 = Instant::now();
+    let mut rng = Rng::new(seed);
+    hist::set_enabled(false);
+    payload::set_pod_mode(false);
+    hooks::thread_begin(0, crate::conc::ROLE_MAIN, seed, Policy::None, &[]);
+    let go = Arc::new(AtomicU64::new(0));
+    let workers: Vec<Arc<Worker>> = (0..2)
+        .map(|_| {
+            Arc::new(Worker {
+                job: Mutex::new(None),
+                state: std::sync::atomic::AtomicU32::new(0),
+                quit: AtomicBool::new(false),
+            })
+        })
+        .collect();
+    let joins: Vec<_> = workers
+        .iter()
+        .enumerate()
+        .map(|(i, w)| {
+            let (w, go) = (w.clone(), go.clone());
+            std::thread::spawn(move || worker_loop(w, go, 1 + i as u32))
+        })
+        .collect();
+    let per_run: u64 = if small { 2 } else { 1000 };
+    let mut trials = 0u64;
+    let mut clones = 0u64;
+    let mut run = 0;
+    let mut report = |shard: &mut Shard, prop: &'static str, sig: &str, detail: String, cfg: &str| {
+        violation(prop, "handle-count", format!("handle-count:{}", sig), format!("{} ({})", detail, cfg));
+        let vs = payload::take_violations();
+        let replay = J::obj().set("engine", J::s("tight-handle-count")).set("cfg", J::s(cfg));
+        shard.add_violations(vs, &replay);
+    };
+    'outer: while run < runs {
+        if budget_ms != 0 && t0.elapsed().as_millis() as u64 > budget_ms {
+            break;
+        }
+        let side_rx = rng.chance(1, 2);
+        let bro = rng.chance(2, 3);
+        let cap = *rng.pick(&[1u64, 2, 4, 8]);
+        let n_actual = cap.next_power_of_two();
+        let mut sig = Hasher64::new();
+        sig.add_str(&format!("handle-count{}{}{}", side_rx, bro, cap));
+        for _ in 0..per_run {
+            let (ka, kb) = (1 + rng.below(4), 1 + rng.below(4));
+            let (d0, d1) = (rng.below(60), rng.below(60));
+            let cfgd = format!(
+                "{} {} cap={} clone/drop rounds={}/{} skew={}/{}",
+                if bro { "broadcast" } else { "mpmc" },
+                if side_rx { "receiver handles of one stream" } else { "sender handles" },
+                cap,
+                ka,
+                kb,
+                d0,
+                d1
+            );
+            trials += 1;
+            clones += ka + kb;
+            macro_rules! storm {
+                ($ha:expr, $hb:expr, $ty:ty) => {{
+                    let sa: Arc<Mutex<Option<$ty>>> = Arc::new(Mutex::new(None));
+                    let sb: Arc<Mutex<Option<$ty>>> = Arc::new(Mutex::new(None));
+                    let (ha, hb) = ($ha, $hb);
+                    let (sa2, sb2) = (sa.clone(), sb.clone());
+                    let a: Job = Box::new(move || {
+                        skew(d0);
+                        for _ in 0..ka {
+                            drop(ha.clone());
+                        }
+                        *sa2.lock().unwrap() = Some(ha);
+                    });
+                    let b: Job = Box::new(move || {
+                        skew(d1);
+                        for _ in 0..kb {
+                            drop(hb.clone());
+                        }
+                        *sb2.lock().unwrap() = Some(hb);
+                    });
+                    run_pair(&workers, &go, a, b);
+                    let x = sa.lock().unwrap().take().unwrap();
+                    let y = sb.lock().unwrap().take().unwrap();
+                    (x, y)
+                }};
+            }
+            if side_rx && bro {
+                let (tx, rx1) = mq::broadcast_queue_with::<u64, _>(cap, mq::wait::BusyWait::new());
+                let h2a = rx1.add_stream();
+                let h2b = h2a.clone();
+                let (h2a, h2b) = storm!(h2a, h2b, mq::BroadcastReceiver<u64>);
+                // the stream still has two handles and has consumed nothing: exactly N sends fit
+                let mut accepted = 0u64;
+                while accepted < 4 * n_actual + 4 && tx.try_send(accepted).is_ok() {
+                    accepted += 1;
+                }
+                if accepted != n_actual {
+                    report(shard, "C12,C06,C03", "stream-with-live-handles-does-not-limit", format!("after two threads cloned and dropped handles of one stream at the same time, {} sends were accepted although the stream (two live handles, nothing consumed) allows exactly N={}", accepted, n_actual), &cfgd);
+                }
+                let first = h2a.unsubscribe();
+                let second = h2b.unsubscribe();
+                if first || !second {
+                    report(shard, "C12,C11,C06", "unsubscribe-says-last-wrongly", format!("the two remaining handles of the stream were unsubscribed one after the other and said last={} then last={} (expected false, true)", first, second), &cfgd);
+                }
+                // the other stream drains; the removed one must not hold anything back
+                let mut drained = 0;
+                while rx1.try_recv().is_ok() {
+                    drained += 1;
+                }
+                let mut again = 0u64;
+                while again < n_actual && tx.try_send(again).is_ok() {
+                    again += 1;
+                }
+                if accepted == n_actual && again != n_actual {
+                    report(shard, "C12,C06,C11", "removed-stream-still-limits", format!("every handle of the second stream is gone and the remaining stream is empty (drained {}), yet only {} of N={} sends were accepted", drained, again, n_actual), &cfgd);
+                }
+            } else if side_rx {
+                let (tx, rx) = mq::mpmc_queue_with::<u64, _>(cap, mq::wait::BusyWait::new());
+                let hb = rx.clone();
+                let (ha, hb) = storm!(rx, hb, mq::MPMCReceiver<u64>);
+                let mut accepted = 0u64;
+                while accepted < 4 * n_actual + 4 && tx.try_send(accepted).is_ok() {
+                    accepted += 1;
+                }
+                if accepted != n_actual {
+                    report(shard, "C12,C06,C03", "stream-with-live-handles-does-not-limit", format!("{} sends were accepted although the stream (two live handles, nothing consumed) allows exactly N={}", accepted, n_actual), &cfgd);
+                }
+                let first = ha.unsubscribe();
+                let second = hb.unsubscribe();
+                if first || !second {
+                    report(shard, "C12,C11,C06", "unsubscribe-says-last-wrongly", format!("the two remaining handles of the stream said last={} then last={} (expected false, true)", first, second), &cfgd);
+                }
+                match tx.try_send(99) {
+                    Err(TrySendError::Disconnected(_)) => {}
+                    other => {
+                        report(shard, "C12,C13,C06", "no-receiver-send", format!("every receiver handle is gone, yet try_send returned {:?}", other.map_err(|e| match e { TrySendError::Full(_) => "Full", TrySendError::Disconnected(_) => "Disconnected" })), &cfgd);
+                    }
+                }
+            } else {
+                // sender handles; the ring is big enough for everything that is sent
+                let m = 3u64;
+                macro_rules! senders {
+                    ($tx:expr, $rx:expr, $ty:ty) => {{
+                        let tx = $tx;
+                        let rx = $rx;
+                        let tb = tx.clone();
+                        let (ta, tb) = storm!(tx, tb, $ty);
+                        // both surviving handles send at the same time
+                        let a: Job = Box::new(move || {
+                            skew(d1);
+                            for i in 0..m {
+                                let _ = ta.try_send(100 + i);
+                            }
+                            drop(ta);
+                        });
+                        let b: Job = Box::new(move || {
+                            skew(d0);
+                            for i in 0..m {
+                                let _ = tb.try_send(200 + i);
+                            }
+                            drop(tb);
+                        });
+                        run_pair(&workers, &go, a, b);
+                        let mut got = Vec::new();
+                        let mut end = "Empty";
+                        for _ in 0..(2 * m + 4) {
+                            match rx.try_recv() {
+                                Ok(v) => got.push(v),
+                                Err(TryRecvError::Disconnected) => {
+                                    end = "Disconnected";
+                                    break;
+                                }
+                                Err(TryRecvError::Empty) => {
+                                    end = "Empty";
+                                    break;
+                                }
+                            }
+                        }
+                        (got, end)
+                    }};
+                }
+                let (mut got, end) = if bro {
+                    let (tx, rx) = mq::broadcast_queue_with::<u64, _>(16, mq::wait::BusyWait::new());
+                    senders!(tx, rx, mq::BroadcastSender<u64>)
+                } else {
+                    let (tx, rx) = mq::mpmc_queue_with::<u64, _>(16, mq::wait::BusyWait::new());
+                    senders!(tx, rx, mq::MPMCSender<u64>)
+                };
+                got.sort();
+                let mut want: Vec<u64> = (0..m).map(|i| 100 + i).chain((0..m).map(|i| 200 + i)).collect();
+                want.sort();
+                if got != want {
+                    report(shard, "C12,C01,C06", "concurrent-senders-lose-values", format!("after two threads cloned and dropped sender handles at the same time, the two surviving handles sent {:?} concurrently (every send fits into the ring) but the stream delivered {:?}", want, got), &cfgd);
+                } else if end != "Disconnected" {
+                    report(shard, "C12,C07,C06", "end-not-reported", format!("every sender handle has been dropped and every value was received, yet try_recv says {} instead of Disconnected", end), &cfgd);
+                }
+            }
+            if shard.violations.len() >= 4 {
+                break 'outer;
+            }
+            if budget_ms != 0 && trials % 256 == 0 && t0.elapsed().as_millis() as u64 > budget_ms {
+                break;
+            }
+        }
+        shard.evaluations += 1;
+        shard.distinct.insert(sig.get());
+        shard.nontrivial.insert(sig.get());
+        run += 1;
+    }
+    for w in &workers {
+        w.quit.store(true, SeqCst);
+    }
+    for j in joins {
+        let _ = j.join();
+    }
+    hooks::thread_end();
+    hist::set_enabled(true);
+    shard.stat("trials", trials);
+    shard.stat("concurrent_clone_drop_rounds", clones);
+}
